@@ -1042,7 +1042,7 @@ def main(argv=None):
     describe = dict(
         level="other",
         rule="(a) one case per rank configuration (leading dims 0-2, windowed dims 1-2 [3 thorough]) and argument form; sizes, window, "
-             "step, dilation are UNBOUNDED symbolic integers; (b) one case per layer/rank; (c) one case per configuration batch / formula",
+             "step, dilation are UNBOUNDED symbolic integers; (b) one case per layer/rank; (c) one case per configuration batch / formula (12 formulas incl. gru with a symbolic non-zero initial state)",
         explanation="(a),(b): the real sliding_window_view / ConvND.__call__ / MaxPoolND.__call__ validation code runs on z3 integers; "
                     "per path z3 discharges acceptance-rule, shape, offset-map, in-bounds, maximality and valid<=>accepted obligations for "
                     "all integer values; (c): forward terms on symbolic reals vs naive nested-loop evaluation of the documented formula",
